@@ -217,6 +217,10 @@ static void mutate_tree(void)
         case 16: { cx_buf l = { 0 }; gen_random_bytes(&l, (int) vh_range(1, 200), 1); for (size_t i = 0; i < l.n; i++) if (l.b[i] == '\n') l.b[i] = ' '; insert_line(f, l.b); cx_buf_free(&l); break; }
         case 17: insert_line(f, "\r"); insert_line(f, " \v\f\r "); break;
         case 18: { cx_buf l = { 0 }; gen_random_bytes(&l, (int) vh_range(1, 400), 0); buf_insert(&f->data, line_boundary(&f->data, 1), l.b, l.n); cx_buf_free(&l); break; }
+        case 19: {                                                                                                  /* proper prefixes of built-in names: not calls, in particular never %exec */
+            static const char *P[] = { "x %e(true)", "x %ex(true) y", "%exe(echo hi)", "v %EX(id)", "x %g(k1)", "x %pu(k1 v)", "x %ver() %app()", "x %r(a b) %d(.)" };
+            insert_line(f, P[vh_below(8)]); vh_count("builtin_name_prefix_lines", 1); break;
+        }
         case 20: {                                                                                                  /* include chain deeper than the 8-bit file index */
             int n = (int) vh_range(250, 262);
             char l[80], nm[48];
